@@ -547,7 +547,7 @@ def describe(c):
                                                               "complex" if c["cplx"] else "real", c["x0k"], c["damp"], c["niter"], c.get("tol", 0.0))
 
 
-def report(pid, tier):
+def report(pid, tier, extra=None):
     R = common.Report(pid, tier)
     _viol, _cnt = R.violation, {}
 
@@ -625,12 +625,22 @@ def report(pid, tier):
         for kind, detail in bad:
             if kind in kinds:
                 R.violation("lsqr %s: %s [%s]" % (kind, detail, describe(L)), replay_dict(L, kind, detail))
+    ex = extra(R, tier) if extra else None
+    if ex:
+        evals += ex["n"]
+        R.cov.update(omp_runs=ex["n"], omp_runs_ok=ex["ok"], omp_runs_with_reselected_column=ex["reselect"], omp_sigma_stops=ex["sigma_stops"],
+                     omp_coq_files=ex["files"], t_omp=ex["t"],
+                     omp_rule="dictionaries 6x4 / 6x5: rational unit-norm columns (incl. a strongly correlated pair) or integer columns; "
+                              "y = sparse combination (+ dyadic noise); niter_inner in {0 (only unit columns, normalizecols=False), 40}; "
+                              "niter_outer in {0,1,2,8}; sigma in {1e-10, 0.35||y||}; functional omp(), class OMP.solve() with Callbacks, manual setup/step, same numpy seed")
+        R.samples.append(ex["sample"])
     R.cov.update(
-        obligations=len(thms) + corr_all + nl, discharged=len(thms) + corr_ok + sum(1 for b, _, _ in res["lres"] if not [x for x in b if x[0] in kinds]),
+        obligations=len(thms) + corr_all + nl + (ex["n"] if ex else 0),
+        discharged=len(thms) + corr_ok + sum(1 for b, _, _ in res["lres"] if not [x for x in b if x[0] in kinds]) + (ex["ok"] if ex else 0),
         checker_cmd="make -C coq; coqc Solvers/CG.v Solvers/CGLS.v Corr/CheckC09.v; coqc Props/%s.v (Print Assumptions); "
                     "coqc .work/<pid>/cases_*.v (vm_compute: pylops cg/cgls runs vs the Gallina model over Qc / Gaussian Qc); "
                     "pylops.lsqr vs scipy.sparse.linalg.lsqr(iter_lim=k) per iteration" % pid,
-        theorems=thms, axioms_reported=axioms, evaluations=evals, distinct_nontrivial=len(nontriv),
+        theorems=thms, axioms_reported=axioms, evaluations=evals, distinct_nontrivial=len(nontriv) + (ex["nontriv"] if ex else 0),
         rule="systems A = D + E (D diagonal in [6,12], E in [-2,2]; integers / Gaussian integers), square HPD (B^H B or symmetrised), "
              "square general, tall 6x4, wide 4x6; integer y; x0 in {None, zeros, random}; damp in {0, 0.5, 3}; niter in {0,1,2,n,n+3} "
              "and one run stopped by a tolerance placed between exact kold values; non-trivial = distinct (system, x0, damp, niter, tol) "
